@@ -545,8 +545,45 @@ func Observe(vm *ds.Context, o *Outcome, withDetail bool) {
 	}
 }
 
+// ExpandSrc turns the compact spelling of a deeply nested source, "@@deep:<kind>:<n>", into the
+// source itself (n nested brackets / parentheses / dict literals / calls / templates around 1);
+// every other text is returned as it is. Scenarios stay small, the library gets the real text.
+func ExpandSrc(src string) string {
+	if !strings.HasPrefix(src, "@@deep:") {
+		return src
+	}
+	parts := strings.Split(src, ":")
+	if len(parts) != 3 {
+		return src
+	}
+	n, err := strconv.Atoi(parts[2])
+	if err != nil || n < 0 || n > 2_000_000 {
+		return src
+	}
+	switch parts[1] {
+	case "br":
+		return strings.Repeat("[", n) + "1" + strings.Repeat("]", n)
+	case "pa":
+		return strings.Repeat("(", n) + "1" + strings.Repeat(")", n)
+	case "dict":
+		return strings.Repeat("{'a':", n) + "1" + strings.Repeat("}", n)
+	case "call":
+		return strings.Repeat("f(", n) + "1" + strings.Repeat(")", n)
+	case "tpl":
+		return strings.Repeat("`{", n) + "1" + strings.Repeat("}`", n)
+	case "idx":
+		return "x" + strings.Repeat("[0]", n)
+	case "neg":
+		return strings.Repeat("-", n) + "1"
+	case "attr":
+		return "x" + strings.Repeat(".a", n)
+	}
+	return src
+}
+
 // DoCmd executes one command on a VM and captures its outcome.
 func DoCmd(vm *ds.Context, c Cmd) *Outcome {
+	c.Src = ExpandSrc(c.Src)
 	o := &Outcome{Kind: c.Kind}
 	var err error
 	var ret *ds.VMValue
